@@ -110,10 +110,10 @@ fn case(c: &Case, rec: &mut Rec) {
 
 pub fn run(ctx: &mut Ctx) {
     let z: Vec<Entry> = zoo::zoo(ctx.tier).into_iter().filter(|e| !e.electrolyte).collect();
-    let tfs: Vec<f64> = ctx.tier.pick(vec![0.7, 1.5, 3.0], vec![0.5, 0.7, 1.0, 1.5, 2.0, 3.0]);
+    let tfs: Vec<f64> = ctx.tier.pick(vec![0.7, 1.5, 3.0], vec![0.4, 0.5, 0.6, 0.7, 0.8, 0.9, 1.0, 1.2, 1.5, 2.0, 3.0, 5.0]);
     let mut cases = vec![];
     for e in &z {
-        for x in e.compositions(if e.n > 1 { Tier::Thorough } else { ctx.tier }).into_iter().take(ctx.tier.pick(2, 4)) {
+        for x in e.compositions(if e.n > 1 { Tier::Thorough } else { ctx.tier }).into_iter().take(ctx.tier.pick(2, 9)) {
             for &tf in &tfs {
                 cases.push(Case { entry: e.clone(), x: x.clone(), tf });
             }
